@@ -21,6 +21,11 @@ Definition resp_field_id : N := 7%N.       (* response_annotations in to_global/
 Definition req := field -> N.
 Definition req0 : req := fun _ => 0%N.      (* a fresh thread's context: None / 0 / {} *)
 
+(* a request whose peer address cannot be determined when it is served (the peer has reset the connection
+   after queueing the request): the context's address field is set to None, written [addr_unknown] *)
+Definition addr_unknown : N := 9001%N.
+Definition peer_unknown (r : req) : req := fun f => match f with FAddr => addr_unknown | _ => r f end.
+
 Definition mem (x : N) (l : list N) : bool := existsb (N.eqb x) l.
 
 Record ctx := mkctx { resp : list N; rq : req }.
